@@ -553,6 +553,29 @@ def chk_cache(case, rec, ctx):
         d = diff_fields(fields_of(got, rec), rch, want_private)
         if d:
             return V("bip32.history.%s" % d[0], {"call": k, "args": [i, hard, ap], "got": d[1]}, d[2])
+    # a public copy taken AFTER the history (whatever the node cached so far must not leak into it): every hardened call
+    # must be refused, every normal call must equal the reference public derivation
+    if rbase.k is not None:
+        st, late_pub = observe(shared.public_copy)
+        if st != "ok":
+            return V("bip32.public_copy_raises", late_pub, "a node")
+        rpub = rbase.neuter()
+        for k, (i, hard, ap) in enumerate(case["calls"]):
+            rec.ev("late_public_copy_call")
+            st, got = observe(late_pub.subkey, i, bool(hard), None if ap is None else False)
+            if hard:
+                if st == "ok":
+                    return V("bip32.hardened_from_public_accepted.after_history", {"call": k, "args": [i, hard, ap]}, "an exception")
+                continue
+            if st != "ok":
+                return V("bip32.subkey_raises", {"call": k, "exc": got, "on": "late public copy"}, "a node")
+            try:
+                rch = RB.ckd_pub(rpub, i)
+            except RB.Invalid:
+                continue
+            d = diff_fields(fields_of(got, rec), rch, False)
+            if d:
+                return V("bip32.late_public_copy.%s" % d[0], {"call": k, "args": [i, hard, ap], "got": d[1]}, d[2])
     # grandchildren through cached children, in two orders
     for text in case.get("paths", []):
         rec.ev("subkey_for_path")
